@@ -4,7 +4,7 @@ use crate::core::{Hist, Monitor, Tier};
 use crate::cw20w::*;
 use crate::direct::Res;
 use cosmwasm_std::{from_json, CosmosMsg, ReplyOn, Response, WasmMsg};
-use std::collections::BTreeMap;
+use std::collections::{BTreeMap, BTreeSet};
 
 pub struct C02;
 
@@ -187,6 +187,37 @@ impl C02 {
                     }
                     if amt == *held && amt > 0 {
                         h.out.count("moves_of_exactly_the_whole_balance");
+                    }
+                }
+            }
+        }
+
+        // (0b) a successful move changes the balances of source and target by exactly the amount named (net zero
+        //      when they coincide) and nobody else's: the amount notified is the amount moved
+        if ok {
+            let mv: Option<(String, Option<String>, u128)> = match op {
+                Op::Transfer { to, amt } | Op::Send { to, amt, .. } => Some((sender.to_string(), Some(to.clone()), *amt)),
+                Op::TransferFrom { owner, to, amt } | Op::SendFrom { owner, to, amt, .. } => Some((owner.clone(), Some(to.clone()), *amt)),
+                Op::Burn { amt } => Some((sender.to_string(), None, *amt)),
+                Op::BurnFrom { owner, amt } => Some((owner.clone(), None, *amt)),
+                _ => None,
+            };
+            if let Some((src, dst, amt)) = mv {
+                let keys: BTreeSet<&String> = pre.bal.keys().chain(post.bal.keys()).collect();
+                for a in keys {
+                    let before = *pre.bal.get(a).unwrap_or(&0);
+                    let after = *post.bal.get(a).unwrap_or(&0);
+                    let mut want = Some(before);
+                    if *a == src {
+                        want = want.and_then(|x| x.checked_sub(amt));
+                    }
+                    if dst.as_ref() == Some(a) {
+                        want = want.and_then(|x| x.checked_add(amt));
+                    }
+                    h.out.oracle_checks += 1;
+                    if want != Some(after) {
+                        h.violate(&format!("C02/move/{kind}/balances-not-changed-by-exactly-the-amount"), format!("{kind} of {amt} from {src} to {dst:?}: balance of {a} {before} -> {after}, expected {want:?}"));
+                        return false;
                     }
                 }
             }
